@@ -131,9 +131,9 @@ class File:
         for x in base.walk(n):
             if x.get("kind") == "ConstantExpr" and "value" in x:
                 return int(x["value"])
-            if x.get("kind") == "IntegerLiteral":
+            if x.get("kind") in ("IntegerLiteral", "CharacterLiteral"):
                 return int(x["value"])
-        raise Unsupported("enum initialiser")
+        raise Unsupported("constant expression whose value clang does not print")
 
     def text(self, node, upto=None, stmt=False):
         b, _, _ = loc_of(node["range"]["begin"])
